@@ -12,7 +12,8 @@ PROPERTY = "C14"
 RULE = ("hypothesis: chains of 1..5 CORD2R/C/S cards (random ids, any type mix, each referencing "
         "basic or an earlier card, A/B/C given in the reference system's own coordinates with "
         "|B-A|,|C-A|>=0.5 and sin(angle)>=0.1), 2..8 grids entered in random input systems "
-        "(radius>=0.1, polar angle in [5,175] deg) with random output systems and sets, scalar "
+        "(radius>=0.1, polar angle in [5,175] deg) with random output systems (grid >=0.05 and >=2 "
+        "deg off the output system's polar axis, where displacement directions are undefined) and sets, scalar "
         "points and q-set grids woven in, reference point = grid id / xyz / default, three ways "
         "of making the systems known (build_coords in shuffled card order, mkusetcoordinfo, USET "
         "lookup).  Oracle: refs/coordsys.py (own CORD2x resolution, maps and local unit vectors): "
@@ -235,10 +236,8 @@ def oracle_coords(case, R):
             csys = _card4x3(next(c for c in cards if c["cid"] == q))
         else:
             csys = q
+        # mode "uset": no dictionary at all, the id is resolved from the definition grids
         cref = None if coordref is None else dict(coordref)
-        if coordref is None and q != 0 and how != "card":
-            # id must be resolvable from the uset (definition grids carry it)
-            pass
         got = np.atleast_2d(n2p.getcoordinates(uset, gids, csys, cref))
         if not R.check(got.shape == (len(gids), 3), "getcoordinates_shape", str(got.shape)):
             continue
@@ -511,7 +510,10 @@ def oracle_rbe3(case, R):
         ncols_dof = sorted((t for t in alld if t not in mdof), key=lambda t: (order[t[0]], t[1]))
         ncols = [alld.index(t) for t in ncols_dof]
         Cm = Cfull[:, mcols]
-        condm = float(np.linalg.cond(Cm))
+        # conditioning of the elimination relative to the whole constraint matrix (a plain
+        # cond() would call a 1x1 block with a vanishing coefficient well conditioned)
+        smin = float(np.linalg.svd(Cm, compute_uv=False)[-1])
+        condm = float(np.linalg.norm(Cfull, 2)) / smin if smin > 0 else math.inf
         dep_in_m = sum(1 for t in mdof if t in ddof)
         R.label("um:all_indep" if dep_in_m == 0 else
                 ("um:all_dep" if dep_in_m == len(mdof) else "um:mixed"))
